@@ -430,7 +430,7 @@ func init() {
 		Assumptions:  []string{"columns are counted in characters (East-Asian display width is not modelled)", "descriptions contain no hyphens and no empty lines"},
 		RequiredHits: []string{"rendered", "wrapped", "width-asserted"},
 		Bound:        [2]string{"widths 1..100, 8 description patterns", "widths 1..300, 16 description patterns"},
-		BudgetS:      [2]int{110, 1500},
+		BudgetS:      [2]int{170, 1500},
 	})
 }
 
